@@ -201,7 +201,14 @@ def _pdd_case(isolated, exp_mode, existing):
                     e = cx.t(en) if exp_mode == "node" else (0.5 if exp_mode == "half" else cx.t(eg))
                     gh = pdd_ghat(p, g("pmin"), g("pnom"), e, g("pdd_poly1_a"), g("pdd_poly1_b"), g("pdd_poly1_c"),
                                   g("pdd_poly1_d"), g("pdd_poly2_a"), g("pdd_poly2_b"), g("pdd_poly2_c"), g("pdd_poly2_d"))
-                    posts.append(("row_is_d_minus_D_times_ghat", w.term.t == DEMAND(nt) - EXP_DEMAND(nt) * gh))
+                    dl = real_val(0.05)
+                    p0, pf = g("pmin"), g("pnom")
+                    regions = [("below_pmin", p <= p0), ("lower_band", z3.And(p > p0, p <= p0 + dl)),
+                               ("power_law", z3.And(p > p0 + dl, p <= pf - dl)), ("upper_band", z3.And(p > pf - dl, p <= pf)),
+                               ("above_preq", p > pf)]
+                    for rn, rc in regions:
+                        posts.append(("row_is_d_minus_D_times_ghat:" + rn,
+                                      z3.Implies(rc, w.term.t == DEMAND(nt) - EXP_DEMAND(nt) * gh)))
                 else:
                     posts.append(("row_is_d_minus_D_times_ghat", False))
             else:
